@@ -32,6 +32,9 @@ type c02Scenario struct {
 	Cfg     pipeConfig `json:"cfg"`
 	NSeeds  int        `json:"n_seeds"`
 	Perturb int        `json:"perturb"`
+	// UseProxy: all traffic goes through an in-process SOCKS5 proxy (--proxy): a second, separately
+	// configured recording client is then the one in use
+	UseProxy bool `json:"use_proxy"`
 }
 
 func hexToB32(h string) string {
@@ -155,6 +158,14 @@ func c02Child(scPath string) int {
 		return 0
 	}
 	pr.org = org
+	if sc.UseProxy {
+		px, err := newSocks5()
+		if err != nil {
+			rep.violation("harness/proxy", err.Error(), nil)
+			return 0
+		}
+		pr.Cfg.Proxy = fmt.Sprintf("socks5://127.0.0.1:%d", px.Port)
+	}
 	discard := sc.Cfg.WARCDiscardStatus
 	if discard == nil {
 		discard = []int{429}
@@ -370,7 +381,7 @@ func c02(r *vc.Run) int {
 			DisableLocalDedupe:  rng.Intn(2) == 0,
 			WARCDiscardStatus:   [][]int{{429}, {429, 404}}[rng.Intn(2)],
 		}
-		scs = append(scs, c02Scenario{Seed: r.Seed, Index: i, Cfg: cfg, NSeeds: 14 + rng.Intn(10), Perturb: i % 3})
+		scs = append(scs, c02Scenario{Seed: r.Seed, Index: i, Cfg: cfg, NSeeds: 14 + rng.Intn(10), Perturb: i % 3, UseProxy: i%5 == 4})
 	}
 	m := newMerged()
 	parallel(len(scs), 12, func(i int) {
